@@ -38,6 +38,9 @@ func (s *SyslogIngester) Process(ctx context.Context, line string) error {
 // ParseSyslogMessage expects a message in the form of "<PID> <Message>".
 func (s *SyslogIngester) ParseSyslogMessage(entry string) sshd.SshdLogEntry {
 	minimumEntrySplitLength := 2
+	// The named pipe ingester delivers each record together with its
+	// line terminator; the terminator is not part of the message.
+	entry = strings.TrimSuffix(entry, "\n")
 	entrySplit := strings.Split(entry, " ")
 
 	if len(entrySplit) < minimumEntrySplitLength {
